@@ -1,0 +1,52 @@
+//go:build verif
+
+package pool
+
+// Contracts for the verification machinery in /verif (comment-only; see /verif/DESIGN.md).
+
+//@ property C19
+//@ spec func pow2(x int) bool = x&(x-1) == 0
+//@ spec func capOf(x any) int = bytype(x, "*[]byte", cap(*x), "*bytes.Buffer", bufcap(x))
+//@ spec func class(p *Pool, s int) int = ite(s <= p.stepSize, p.stepSize, pmath.CeilToPowerOfTwo(s))
+//@ spec func idx(p *Pool, n int) int = (n - 1) / p.stepSize
+//@ spec func inv(p *Pool) bool = p != nil && p.stepSize >= 1 && p.stepSize <= pmath.maxintHeadBit && pow2(p.stepSize) && len(p.pool) >= 1
+//@ spec func stored(p *Pool, i int, x any) bool = pooltyp(&p.pool[i], x) != nil
+//@ spec func SI(p *Pool, i int, x any, s int) bool = implies(0 <= i && i < len(p.pool) && stored(p, i, x), pooltyp(&p.pool[i], x) == statictypeid(x) && implies(0 <= s && s <= pmath.maxintHeadBit && idx(p, class(p, s)) == i, capOf(x) >= s))
+//@ field Pool.size closure New$1(stepSize = self.stepSize)
+//@ field Pool.pool immutable New
+//@ field Pool.size immutable New
+//@ field Pool.stepSize immutable New
+
+//@ func New$1
+//@   mode bv
+//@   requires i >= 0 && stepSize >= 1
+//@   panics_iff i > stepSize && i > pmath.maxintHeadBit
+//@   ensures result == ite(i <= stepSize, stepSize, pmath.CeilToPowerOfTwo(i))
+
+//@ func New
+//@   mode bv
+//@   requires max <= pmath.maxintHeadBit
+//@   ensures inv(result) && result != nil
+//@   ensures covers: implies(max >= 1, result.stepSize * len(result.pool) >= max)
+
+//@ func (*Pool[T]).Get
+//@   mode bv
+//@   requires inv(p) && 0 <= size && size <= pmath.maxintHeadBit
+//@   requires SIall: forallint(i, forallv(x, T, forallint(s, SI(p, i, x, s))))
+//@   modifies ghost pooltyp
+//@   after (*sync.Pool).Get instantiate SIall(idx, as(result, T), size)
+//@   ensures size_class: result1 == class(p, size) && result1 >= size
+//@   ensures cap: implies(result0 != nil, capOf(result0) >= size)
+//@   ensures once: nemitted() <= 1
+
+//@ func (*Pool[T]).Put
+//@   mode bv
+//@   forall i0 int
+//@   forall x0 T
+//@   forall s0 int
+//@   requires inv(p) && capOf(x) == size && 0 <= size && size <= pmath.maxintHeadBit
+//@   requires SI(p, i0, x0, s0)
+//@   modifies ghost pooltyp
+//@   ensures shard: SI(p, i0, x0, s0)
+//@   split shard: p.stepSize pow2 0 62
+//@   ensures once: nemitted() <= 1
